@@ -484,9 +484,10 @@ func (p *Parser) ParseErrorStatement() (*ast.ErrorStatement, error) {
 	// If code exists, attach comment to it as Trailing
 	case stmt.Code != nil:
 		SwapLeadingTrailing(p.curToken, stmt.Code.GetMeta())
-	// Otherwise, attach comment to the statement as Trailing
+	// Otherwise, attach comment to the statement as Infix like the other keyword-only statements
+	// (the Trailing is replaced by the comments after the semicolon below)
 	default:
-		SwapLeadingTrailing(p.curToken, stmt.Meta)
+		SwapLeadingInfix(p.curToken, stmt.Meta)
 	}
 	stmt.Trailing = p.Trailing()
 
@@ -970,6 +971,8 @@ func (p *Parser) ParseCaseStatement() (*ast.CaseStatement, error) {
 			matchExp.Operator = "=="
 			matchExp.Right = exp
 		case token.REGEX_MATCH:
+			// comments between "case" and "~" are infix comments of the case statement
+			SwapLeadingInfix(p.curToken, stmt.Meta)
 			exp, err := p.ParsePrefixExpression()
 			if err != nil {
 				return nil, errors.WithStack(err)
